@@ -304,26 +304,33 @@ _ADDED = {
     "C18": "Added: R-WAKE-PRUNE (no collision pair with an awake side is discarded by a sleep test; finite evaluation of the "
            "pruning guards).",
     "C20": "Added: R-CLEAR-COUNTS for every function that zeroes nefc (the counters ne/nf/nl and the contact efc_address values "
-           "are cleared with it).",
+           "are cleared with it)."
+           " Also: the arena size test cannot wrap (every unsigned subtraction in it is non-negative under pstack + parena <= narena) and R-ARENA-STALE (what a rewind of d->parena releases is cleared with it; shared with C01).",
     "C21": "Added: R-FREE-NULL (a freed model/data pointer member is nulled or overwritten before the next free of it on all "
            "paths) and R-PUBLISH-INIT (an object is published to its owner only after every member its destructor reads is "
            "initialised).",
     "C22": "Added: R-SEMANTIC — abstract interpretation of the generated functions over every weak ordering of <= 4 (sort) / <= 5 "
            "(partial sort, all k) abstract elements and of the merge region on every pair of sorted runs of length <= 3: stable "
-           "sorted output / k smallest in order / stable merge; shape-independent (fast paths, sift-down bounds, heap construction).",
+           "sorted output / k smallest in order / stable merge; shape-independent (fast paths, sift-down bounds, heap construction)."
+           " The merge pass is found by role; layout-bound clauses are skipped (recorded in the evidence) when a layout is not recognised and the semantic rule holds.",
     "C25": "Added: R-FD-ORDER (the operand order of the forward / backward / centred difference branches is one acyclic 'comes "
            "before' relation) and R-SKIPFACTOR (a factorisation is reused across perturbations only below the stage whose inputs "
-           "the not-reused code reads).",
+           "the not-reused code reads)."
+           " Also R-ZERO-SKIP: a qDeriv accumulation skipped on `X == 0` vanishes with X (re-evaluation of the defining statements with X forced to 0 at generic inputs).",
+    "C26": "Added: mj_setState / mj_copyState write nothing of the destination mjData outside the element loop (what is written there "
+           "is written whatever the signature selects).",
     "C28": "Added: the cutoff clamp is applied per sensor datatype exactly where the stored element is read back (R-CUTOFF "
            "datatype clause).",
     "C37": "Added: R-ATTR-BOUND (every ReadAttr destination extent admits the maximum length passed, before the size check) and "
-           "R-FORMAT (no run-time string reaches a printf-style format position of the error constructors).",
+           "R-FORMAT (no run-time string reaches a printf-style format position of the error constructors)."
+           " Also R-FORMAT argument agreement (a %s format has a string argument) and R-INPUT-BOUND / R-INPUT-BOUND-CALL (stores indexed by input-driven counters are bounded by a guard or by the uniqueness argument; call-site buffers cover the bound).",
     "C38": "Added: protected aliases — a pointer / iterator / reference into a guarded member is valid only inside the lock region "
            "it was obtained in; uses after it and escapes by return / store are reported (one known finding: HasAsset).",
     "C39": "Added: R-DERIVED (a member filled from table lookups and read back is a cache: every table mutator invalidates it) and "
            "R-DELEXACT (delete erases under another key only where the exact name is known absent; 0 is returned exactly on "
            "paths that erased an entry).",
-    "C42": "Added: R-MEMBER-SCAN (a scan of element members filtered to Attr handles Use / ranges over all declarations).",
+    "C42": "Added: R-MEMBER-SCAN (a scan of element members filtered to Attr handles Use / ranges over all declarations)."
+           " Also R-MODULE-STATE: no generator function keeps state in module-level mutable objects unless the memo key determines the cached value.",
     "C43": "Added: R-XLANG-FEED (every data-flow feed between mirrored primitives in an MJX integrator has the same call order in "
            "the C integrator; fields the C driver produces by a primitive depend on the mirrored primitive in MJX) and "
            "R-XLANG-COVER (the ball-limit Jacobian axis depends on the quaternion's scalar part other than through the activity "
@@ -333,10 +340,12 @@ _ADDED = {
            "compiler's own condition) and R-BOUNDS (bound rows ordered per slot group).",
     "C50": "Added: R-CAPACITY (a decision on the scene capacity outside the slot producer has an arm that reports) and "
            "R-INDEX-BOUND (interval analysis of every subscript of mjvOption's fixed-extent flag arrays: 113 sites inside "
-           "[0, extent-1], through clamp macros, helpers, early returns, loops and decayed passes).",
+           "[0, extent-1], through clamp macros, helpers, early returns, loops and decayed passes)."
+           " Also R-STATUS-INPUT: no decision outside the slot producer depends on scn->status.",
     "C51": "Added: R-TABLE as abstract interpretation of activation-slot indices (linear forms over actadr/actnum for 64 option x "
            "dyntype combinations; every state slot and the setpoint slot lie where the engine's own layout puts them) and "
-           "R-BOUNDS-AGREE (the two curvature operands of the cable have the same exact norm bound).",
+           "R-BOUNDS-AGREE (the two curvature operands of the cable have the same exact norm bound)."
+           " Also R-STATELESS: the force-producing callbacks read a member they write only after a write of the same element in the same call.",
 }
 for _pid, _txt in _ADDED.items():
     _c = CLAIMS[_pid]
